@@ -2124,7 +2124,41 @@ func flyioWide(r *Rng, o *Out, tier string) {
 
 // ---- C18 ----
 
+// evaluating a condition READS the identities: the membership lists of a request - here windows of one shared array,
+// the first one with spare capacity, as a service slicing one database row would have them - are the same afterwards,
+// and later requests built from them get the answers their own lists give
+func identityListsUntouchedRun() string {
+	base := []uint64{10, 11, 20, 21}
+	gbase := []uint64{110, 111, 120, 121}
+	alice := &auth.FlyioAuth{UserID: 1, OrganizationIDs: base[:2]}
+	bob := &auth.FlyioAuth{UserID: 2, OrganizationIDs: base[2:]}
+	carol := &auth.FlyioAuth{UserID: 3, OrganizationIDs: []uint64{30}}
+	ga := &auth.GitHubAuth{UserID: 1, OrgIDs: gbase[:2]}
+	gb := &auth.GitHubAuth{UserID: 2, OrgIDs: gbase[2:]}
+	gc := &auth.GitHubAuth{UserID: 3, OrgIDs: []uint64{130}}
+	exp := time.Now().Add(time.Minute)
+	r1 := &auth.DischargeRequest{Flyio: []*auth.FlyioAuth{alice, carol}, GitHub: []*auth.GitHubAuth{ga, gc}, Expiry: exp}
+	org := func(id uint64) macaroon.Caveat { return &auth.ConfineOrganization{ID: id} }
+	gh := func(id uint64) macaroon.Caveat { c := auth.ConfineGitHubOrg(id); return &c }
+	for k := 0; k < 2; k++ { // (the refusal path renders the lists once more)
+		if org(30).Prohibits(r1) != nil || org(99).Prohibits(r1) == nil || gh(130).Prohibits(r1) != nil || gh(99).Prohibits(r1) == nil {
+			return "harness-error(first request)"
+		}
+		_ = r1.FlyioUserIDs()
+		_ = r1.GitHubOrgIDs()
+	}
+	if fmt.Sprint(base) != "[10 11 20 21]" || fmt.Sprint(gbase) != "[110 111 120 121]" {
+		return "evaluating-a-condition-rewrote-the-identities-membership-lists:" + strings.ReplaceAll(fmt.Sprint(base, gbase), " ", ",")
+	}
+	r2 := &auth.DischargeRequest{Flyio: []*auth.FlyioAuth{bob}, GitHub: []*auth.GitHubAuth{gb}, Expiry: exp}
+	if org(30).Prohibits(r2) == nil || org(20).Prohibits(r2) != nil || gh(130).Prohibits(r2) == nil || gh(120).Prohibits(r2) != nil {
+		return "a-later-request-is-judged-by-another-requests-identities"
+	}
+	return "sound"
+}
+
 func famAuthcav(r *Rng, o *Out, tier string) {
+	o.emit("(const sound)", identityListsUntouchedRun())
 	n := 8000
 	if tier == "thorough" {
 		n = 300000
